@@ -107,7 +107,9 @@ CLAIMED["C07"] = dict(
          "hydro task is checked against a task graph derived from layout and boundary types alone: exactly once, "
          "after all tasks it depends on, never concurrently with a task touching the same subgrid (task start is "
          "itself a scheduling point), lock of every touched subgrid held by the executing thread, progress-based "
-         "termination verdict, empty counters/queues afterwards, and the code's own task tables match the graph.",
+         "termination verdict, empty counters/queues afterwards, and the code's own task tables match the graph. "
+         "In 15% of the runs the simulation is stopped after the first step and restarted from its dump with the "
+         "same or another number of threads, so that steps on rebuilt task tables and queues are covered too.",
     note="sequential consistency at AtomicValue granularity; the data-race consequences of a missing lock are seen "
          "through the overlap / lock-holder oracle, not through a memory model",
     technique="deterministic simulation: seeded fiber scheduler + trace check against a reference task graph",
